@@ -293,6 +293,20 @@ def fam_c09(R, n):
     # explicit priority replaces the default
     for p, pr in [('a+', 7), ('[a-z]{4}', 1), ('abc', 0)]:
         out.append(dict(family='c09-explicit', src=enum([], ['#[regex(%s, priority = %d)] A,' % (rust_str(p), pr)]), meta=dict(leaf=0, explicit=pr)))
+        out.append(dict(family='c09-explicit', src=enum([], ['#[regex(%s, priority = %d, ignore(case))] A,' % (rust_str(p), pr + 1)]), meta=dict(leaf=0, explicit=pr + 1)))
+        out.append(dict(family='c09-explicit', src=enum(['#[logos(skip(%s, priority = %d))]' % (rust_str(p), pr + 2)], ['#[token("zzzz")] Z,']), meta=dict(leaf=0, explicit=pr + 2)))
+    for w, pr in [('abc', 1), ('é', 9), ('k', 0)]:
+        out.append(dict(family='c09-explicit', src=enum([], ['#[token(%s, priority = %d)] A,' % (rust_str(w), pr)]), meta=dict(leaf=0, explicit=pr)))
+        out.append(dict(family='c09-explicit', src=enum([], ['#[token(%s, priority = %d, ignore(case))] A,' % (rust_str(w), pr + 3)]), meta=dict(leaf=0, explicit=pr + 3)))
+    # "a literal token is never beaten on its own text by a regex with default priority: it wins or the derive reports an ambiguity"
+    for w, rs in [('if', ['[a-z]+', 'i[a-z]', '..', '[a-z]{2}', 'if|else', '(?i)IF', 'i?f+', '\\w+', '[a-z]+(?-u:\\b)', 'if$']),
+                  ('é', ['\\p{L}', '.', '[^a]', 'é+', '(?i)É']), ('==', ['=+', '[=!]=', '={2}', '==?']), ('中a', ['\\p{Han}[a-z]', '..', '[^ ]+']),
+                  ('a.b', ['a.b', 'a\\.b', '[a-z.]+'])]:
+        for r in rs:
+            out.append(dict(family='c09-literal', src=enum([], ['#[token(%s)] Lit,' % rust_str(w), '#[regex(%s)] Re,' % rust_str(r)]),
+                            meta=dict(literal=w.encode('utf-8').hex(), lit_name='Lit')))
+            out.append(dict(family='c09-literal', src=enum([], ['#[regex(%s)] Re,' % rust_str(r), '#[token(%s)] Lit,' % rust_str(w)]),
+                            meta=dict(literal=w.encode('utf-8').hex(), lit_name='Lit')))
     return out
 
 
